@@ -591,7 +591,16 @@ pub fn progen(seed: u64) -> Program {
         args.push("--fsigned_char".into());
     }
     let mut out = String::new();
-    let template = g.r.below(10);
+    // templates 5..9 are structural stress shapes; the heavy ones (hundreds of macros or globals, a very
+    // long main) cost 20-50 times an ordinary program and are kept rare
+    let template = match g.r.below(80) {
+        0..=7 => 5,
+        8 | 9 => 6,
+        10 | 11 => 7,
+        12..=17 => 8,
+        18 | 19 => 9,
+        _ => 0,
+    };
     // macros
     let nmac = if template == 6 { 98 + g.r.below(8) } else { g.r.below(4) };
     for i in 0..nmac {
